@@ -17,6 +17,7 @@ formats with round-trip and soundness theorems.  Ties to /repo, every run:
      signature / PSV0 part structure, determinism."""
 import json
 import os
+import resource
 import time
 from concurrent.futures import ThreadPoolExecutor
 
@@ -712,10 +713,14 @@ def run(ctx):
             return
         phases = ctx.cov.setdefault("phase_seconds", {})
 
+        def cpu():
+            a, b = resource.getrusage(resource.RUSAGE_SELF), resource.getrusage(resource.RUSAGE_CHILDREN)
+            return a.ru_utime + a.ru_stime + b.ru_utime + b.ru_stime
+
         def timed(name, f, *a):
-            t0 = time.time()
+            t0, c0 = time.time(), cpu()
             r = f(ctx, tools, exe, *a)
-            phases[name] = round(time.time() - t0, 1)
+            phases[name] = {"wall": round(time.time() - t0, 1), "cpu": round(cpu() - c0, 1)}
             return r
         n1, b1 = timed("writer", tie_writer, ctx.scale(600, 60000))
         n2, b2 = timed("container", tie_container, ctx.scale(120, 8000))
